@@ -57,7 +57,7 @@ func main() {
 	}
 	h.corpus(f.Corpus)
 	h.buildCases(r.Fork(), f.N(30, 500))
-	h.reuseCases(r.Fork(), f.N(60, 1500))
+	h.reuseCases(r.Fork(), f.N(60, 1500), f.Tier == "thorough")
 	h.e2eCases(r.Fork(), f.N(3, 40), f.Tier == "thorough")
 }
 
@@ -165,6 +165,14 @@ func naiveSkip(d doc, sizeMax, trigramMax int) index.SkipReason {
 	}
 	return d.Skip
 }
+
+var branchPool = func() []string {
+	p := []string{"main", "dev", "release", "stable", "feature/x"}
+	for i := len(p); i < 64; i++ {
+		p = append(p, fmt.Sprintf("b%d", i))
+	}
+	return p
+}()
 
 var names = []string{"main.go", "a/b/c.py", "README.md", "vendor/x/y.go", "foo_test.go", ".gitignore", "Makefile", "x", "node_modules/m/i.js",
 	"docs/guide.md", "pkg/very/long/path/to/some/file/name.java", "é.txt"}
@@ -446,13 +454,53 @@ func (h *harness) reuseCase(script, class string) {
 		Detail: gen.Detail(detail{Kind: "reuse", Script: script})})
 }
 
-func (h *harness) reuseCases(r *gen.Rand, n int) {
+// heavyUnits: short strings whose repetition makes one trigram's posting list very long — non-ASCII (map-backed posting
+// lists) and ASCII (array-backed) alike. Buffer-retention policies in reset() depend on how large a list grew.
+var heavyUnits = []string{"═", "日", "é", "a═", "═b", "=", "ab", "日本"}
+
+// heavyText repeats unit so that its dominant trigram gets more than `postings` postings (one varint byte each).
+func heavyText(unit string, postings int) []byte {
+	runes := utf8.RuneCountInString(unit)
+	n := postings/1 + 8
+	if runes > 1 {
+		n = postings + 8 // the trigram recurs once per unit
+	}
+	return []byte(strings.Repeat(unit, n))
+}
+
+func (h *harness) reuseCases(r *gen.Rand, n int, large bool) {
 	text := func() string {
 		c := bytes.ReplaceAll(gen.Text(r, 25, r.Chance(1, 4)), []byte{0}, []byte{' '})
 		return "a:" + gen.Hex(c) + ":-"
 	}
 	for i := 0; i < n; i++ {
 		var cmds []string
+		if i%6 == 0 {
+			// a posting list grown past 4 KiB (64 KiB in the thorough tier) before the reset, the same trigram after it
+			unit := heavyUnits[(i/6)%len(heavyUnits)]
+			size := gen.Pick(r, []int{4100, 4200, 5000})
+			if large && i%600 == 0 {
+				size = 66000 // the Lean model appends posting bytes to a list: keep the quadratic cases few
+			}
+			cmds = append(cmds, "a:"+gen.Hex(heavyText(unit, size))+":-")
+			if r.Chance(1, 2) {
+				cmds = append(cmds, text())
+			}
+			if r.Chance(1, 2) {
+				cmds = append(cmds, "w")
+			}
+			cmds = append(cmds, "r")
+			after := append(bytes.ReplaceAll(gen.Text(r, 10, false), []byte{0}, []byte{' '}), []byte(strings.Repeat(unit, 3+r.Intn(6)))...)
+			after = append(after, bytes.ReplaceAll(gen.Text(r, 10, false), []byte{0}, []byte{' '})...)
+			cmds = append(cmds, "a:"+gen.Hex(after)+":-")
+			if r.Chance(1, 2) {
+				cmds = append(cmds, text())
+			}
+			cmds = append(cmds, "w")
+			h.w.Count("reuse-heavy-posting-list", 1)
+			h.reuseCase(strings.Join(cmds, "~"), "reuse/heavy")
+			continue
+		}
 		for round := 0; round < 1+r.Intn(3); round++ {
 			for j := 0; j < 1+r.Intn(4); j++ {
 				cmds = append(cmds, text())
@@ -863,9 +911,15 @@ func (h *harness) e2eCases(r *gen.Rand, n int, large bool) {
 		nr := gen.Pick(r, []int{1, 2, 3})
 		for j := 0; j < nr; j++ {
 			rp := repoSpec{Name: fmt.Sprintf("repo%d", j), ID: uint32(10*i + j + 1)}
+			// branch names from one pool, at different positions in different repositories (matters once they share a
+			// compound shard)
 			nb := gen.Pick(r, []int{1, 2, 3, 40})
-			for k := 0; k < nb; k++ {
-				rp.Branches = append(rp.Branches, fmt.Sprintf("b%d", k))
+			rp.Branches = append(rp.Branches, branchPool[:nb]...)
+			if j > 0 && nb > 1 {
+				k := 1 + r.Intn(nb-1)
+				rp.Branches = append(append([]string(nil), rp.Branches[k:]...), rp.Branches[:k]...)
+			} else if r.Chance(1, 2) {
+				gen.Shuffle(r, rp.Branches)
 			}
 			nd := gen.Pick(r, []int{1, 3, 6, 12})
 			if large {
@@ -875,6 +929,35 @@ func (h *harness) e2eCases(r *gen.Rand, n int, large bool) {
 				rp.Docs = append(rp.Docs, genDoc(r, k, rp.Branches, gen.Pick(r, []int{10, 40, 120})))
 			}
 			e.Repos = append(e.Repos, rp)
+		}
+		if i%3 == 0 {
+			// heavy corpus: the first document of the first repository makes one trigram's posting list longer than 4 KiB
+			// (64 KiB now and then in the thorough tier); later documents — later shards, built with pooled buffers — use the
+			// same trigram, and it is queried
+			unit := heavyUnits[(i/3+int(r.U64()%7))%len(heavyUnits)]
+			size := 4200
+			if large && r.Chance(1, 4) {
+				size = 66000
+			}
+			rp := &e.Repos[0]
+			hd := doc{Name: "0-heavy.txt", Content: heavyText(unit, size), Branches: []string{rp.Branches[0]}}
+			docs := []doc{hd}
+			for k, d := range rp.Docs {
+				d.Name = fmt.Sprintf("%d-%s", k+1, d.Name)
+				if k%2 == 0 && d.Skip == index.SkipReasonNone && bytes.IndexByte(d.Content, 0) < 0 {
+					d.Content = append(append(append([]byte(nil), d.Content...), []byte("\n// "+strings.Repeat(unit, 3+r.Intn(5))+" needle"+fmt.Sprint(k)+"\n")...))
+					d.Symbols = nil
+				}
+				docs = append(docs, d)
+			}
+			for len(docs) < 4 {
+				k := len(docs)
+				docs = append(docs, doc{Name: fmt.Sprintf("%d-extra.go", k), Content: []byte("package x\n// " + strings.Repeat(unit, 4) + " extra" + fmt.Sprint(k) + "\n"),
+					Branches: []string{rp.Branches[0]}})
+			}
+			rp.Docs = docs
+			e.ExtraSubstr = []string{strings.Repeat(unit, 3), strings.Repeat(unit, 2) + " needle", strings.Repeat(unit, 4)}
+			h.w.Count("e2e-heavy-posting-list-corpora", 1)
 		}
 		e.QSeed, e.CSeed = r.U64(), r.U64()
 		h.e2eCase(e, "e2e")
